@@ -13,6 +13,7 @@ claimed = {
  "C05": ("W-lb", "histories of lookups x host-set replacements x health flips on a real simpleCluster and every balancer policy, interleaved at operation boundaries and at yield points inside Snapshot/UpdateHosts/Host.Health by the seeded scheduler; interval oracle: returned host belongs to a snapshot current during the lookup, was not unhealthy throughout, nil only if no host was healthy throughout", "maglev and subset balancing are exercised through W-proxy, not here; one flipper task per address so that the flag-word race of C16 cannot blur the health model", "4 C05"),
  "C06": ("W-lb", "WRR clause: for seeded weight vectors (1..128), health patterns and preceding host-set replacements, the bounded-lag inequality is checked over every window of a 50..450 pick history of the real WRR balancer", "the zero-weight-cluster clause (route weighted clusters) is not built yet in this snapshot; the 'probability exactly weight/total' clause is not decided (DESIGN.md section 4 C06)", "4 C06"),
  "C16": ("W-health", "(a) 2-4 goroutines each owning one condition bit of one address, set/clear interleaved at the yield point between load and store of the flag word; per-operation and final invariants; (b) the real healthChecker/sessionChecker on the fake clock with a scripted session (ok, fail, slow, timeout, late answer) against a reference threshold automaton over the check outcomes", "callbacks are compared in order with the scripted outcome of the check of the same index", "4 C16"),
+ "C09": ("W-proxy", "HTTP/1 pool, a ping-pong xprotocol (bolt wire format behind PoolMode=PingPong, registered through the public codec API) and the multiplex pool: pool books (verif accessors) against the simulated network's truth at every quiescent point, at most one exchange in flight per ping-pong connection as seen by the upstream actor, no lease outstanding at idle, and a capacity probe of max_connections/max_requests concurrent fresh requests after every history of replies, resets, timeouts, refusals, overflows and closes", "binding pool (connpool_binding.go) and the HTTP/2 pool are not exercised; 'dirty reuse' is judged from the upstream's view (a request arriving before the previous exchange completed)", "4 C09"),
 }
 
 na = {
@@ -21,7 +22,7 @@ na = {
  "C15": "subset selection and both builders are pure functions of (host metadata, selectors, fallback policy, criteria); no schedule, time, fault or history in the statement",
  "C19": "load/dump round trip is a pure function of the configuration; no time, I/O fault, concurrency or history in the statement",
 }
-pending = ["C07","C08","C09","C11","C12","C14","C17","C18","C20"]
+pending = ["C07","C08","C11","C12","C14","C17","C18","C20"]
 
 def main():
     checks=[]
